@@ -36,7 +36,7 @@ def opt(a: int) -> int | None: return a if a else None
 PRELUDE = U.PRELUDE + HELPERS
 NPRE = PRELUDE.count("\n")
 
-PTYPES = ["int", "str", "bool", "float", "int | None", "int | str", "tuple[int, str]", "tuple[int, ...]", "list[int]", "dict[str, int]", "Literal[1, 2]", "E", "A",
+PTYPES = ["int", "str", "bool", "Literal[0, False]", "tuple[()]", "float", "int | None", "int | str", "tuple[int, str]", "tuple[int, ...]", "list[int]", "dict[str, int]", "Literal[1, 2]", "E", "A",
           "tuple[int, str, float]", "str | None", "list[str] | None", "tuple[int, ...] | None", "A | None", "IE", "bytes", "float | str", "tuple[()] | tuple[int]",
           "Sequence[int]", "type[A]", "NT"]
 EXPRS = ["x", "x[0]", "x[1]", "x[-1]", "x[-2]", "x[1:]", "x[:1]", "len(x)", "x + 1", "(x, 1)", "[x]", "x if x else None", "x and 1", "x or 'z'", "not x", "x == 1",
@@ -66,6 +66,19 @@ S1 = [
     "v = x\n    for w in ({e}, None, 1):\n        if w is None:\n            break\n        v = w",
     "d = {{'k': {e}}}\n    v = d['k']",
     "v = ({e}, x)\n    v = v[0]",
+    "v = None\n    for w in x:\n        v = {e}",
+    "v = None\n    for w in range(len(x)):\n        v = {e}",
+    "v = 0\n    for w in ():\n        v = {e}",
+    "v = 0\n    for w in (1, 2):\n        v = {e}\n    else:\n        use(v)",
+    "v = 0\n    while True:\n        try:\n            v = {e}\n            break\n        finally:\n            use(x)",
+    "v = 0\n    while c():\n        try:\n            boom()\n            v = {e}\n            continue\n        except ValueError:\n            break\n    else:\n        use(v)",
+    "match x:\n        case int():\n            v = 1\n        case str():\n            v = {e}\n        case _:\n            v = None",
+    "v = 0 if c() else False\n    if v is not False:\n        v = ({e}, v)",
+    "v = x\n    if v is not None and v is not True:\n        v = ({e}, v)",
+    "if 1 < len(x):\n        v = x\n    else:\n        v = {e}",
+    "v = 0\n    with open('/dev/null') as fh:\n        v = {e}",
+    "def inner() -> object:\n        return {e}\n    v = inner()",
+    "v = lambda: {e}\n    v = v()",
 ]
 S2 = [
     "w = v\n    use(w)",
@@ -79,6 +92,9 @@ S2 = [
     "w = v if c() else x\n    use(w)",
     "if v == 1:\n        use(v)\n    elif v in ('a', None):\n        use(v)\n    else:\n        use(v)",
     "while c():\n        v = (v,)\n    use(v)",
+    "if v is not False:\n        use(v)\n    else:\n        use(v)",
+    "if v is not True and v is not None:\n        use(v)\n    else:\n        use(v)",
+    "for w in ():\n        v = w\n    use(v)",
     "if isinstance(v, (bool, str)):\n        use(v)\n    else:\n        use(v)",
 ]
 
@@ -86,13 +102,13 @@ S2 = [
 def programs(tier):
     """(ptype, source of run()) in simplest-first order."""
     out = []
-    for pt, e, s in itertools.product(PTYPES, EXPRS, S1):
-        out.append((pt, "def run(x: %s) -> object:\n    %s\n    return v\n" % (pt, s.format(e=e))))
+    for pt, e, (si, s) in itertools.product(PTYPES, EXPRS, list(enumerate(S1))):
+        out.append((pt, "def run(x: %s) -> object:\n    %s\n    return v\n" % (pt, s.format(e=e)), "%d" % si))
     exprs2 = EXPRS_SMALL if tier == "quick" else EXPRS
     s1_2 = S1[:12] if tier == "quick" else S1
-    pts = PTYPES[:12] if tier == "quick" else PTYPES
-    for pt, e, s, t in itertools.product(pts, exprs2, s1_2, S2):
-        out.append((pt, "def run(x: %s) -> object:\n    %s\n    %s\n    return v\n" % (pt, s.format(e=e), t)))
+    pts = PTYPES[:14] if tier == "quick" else PTYPES
+    for pt, e, (si, s), (ti, t) in itertools.product(pts, exprs2, list(enumerate(s1_2)), list(enumerate(S2))):
+        out.append((pt, "def run(x: %s) -> object:\n    %s\n    %s\n    return v\n" % (pt, s.format(e=e), t), "%d+%d" % (si, ti)))
     return out
 
 
@@ -117,6 +133,16 @@ class _Instr(ast.NodeTransformer):
                 return node
             key = (node.lineno, node.col_offset, node.end_lineno, node.end_col_offset, type(node).__name__)
             return ast.copy_location(ast.Call(func=ast.Name(id="__rec", ctx=ast.Load()), args=[ast.Constant(key), node], keywords=[]), node)
+        return node
+
+    def visit_FunctionDef(self, node):
+        # annotations and defaults are not part of the executed body
+        node.body = [self.visit(b) for b in node.body]
+        return node
+
+    def visit_AnnAssign(self, node):
+        if node.value is not None:
+            node.value = self.visit(node.value)
         return node
 
     def visit_match_case(self, node):
@@ -167,7 +193,7 @@ def _run_programs(res, progs, base, only_arg=None, only_env=None):
     from ref.invalue import Unknown, in_value
     # all programs of the unit share one module: run_0 ... run_k
     srcs = []
-    for k, (pt, src) in enumerate(progs):
+    for k, (pt, src, tmpl) in enumerate(progs):
         srcs.append(src.replace("def run(", "def run_%d(" % k, 1))
     code = PRELUDE + "".join(srcs)
     fails, tree, mod = check(code, visitor_cls=Rec, want_module=True)
@@ -182,13 +208,13 @@ def _run_programs(res, progs, base, only_arg=None, only_env=None):
         for f in fails:
             if f["code"].name == "internal_error":
                 internal[f.get("lineno")] = f.get("description", "")
-        for k, (pt, src) in enumerate(progs):
+        for k, (pt, src, tmpl) in enumerate(progs):
             order = base + k
             res.states += 1
             fn = fndefs["run_%d" % k]
             bad_lines = [l for l in internal if fn.lineno <= (l or 0) <= fn.end_lineno]
             if bad_lines:
-                res.violation({"kind": "internal_error", "where": internal[bad_lines[0]].strip().split("\n")[-1][:80]}, {"ptype": pt, "src": src, "arg": None, "env": [], "order": order},
+                res.violation({"kind": "internal_error", "where": internal[bad_lines[0]].strip().split("\n")[-1][:80]}, {"ptype": pt, "src": src, "tmpl": tmpl, "arg": None, "env": [], "order": order},
                               "internal_error while checking\n%s" % src)
                 continue
             inf = {}
@@ -250,8 +276,8 @@ def _run_programs(res, progs, base, only_arg=None, only_env=None):
                         if not vals:
                             seg = ast.get_source_segment(code, _find(fn, key)) or "?"
                             res.outcomes["unvisited"] += 1
-                            res.violation({"kind": "reached-unvisited", "node": seg, "guard": _guard(code, fn, key), "ptype": pt, "argtype": type(arg).__name__, "rtype": type(val).__name__},
-                                          {"ptype": pt, "src": src, "arg": asrc, "env": env, "order": order},
+                            res.violation({"kind": "reached-unvisited", "tmpl": tmpl, "node": seg, "guard": _guard(code, fn, key), "ptype": pt, "argtype": type(arg).__name__, "rtype": type(val).__name__},
+                                          {"ptype": pt, "src": src, "tmpl": tmpl, "arg": asrc, "env": env, "order": order},
                                           "node `%s` is executed (value %r) for run(%s) env=%s but was never visited in the checking phase:\n%s" % (seg, val, asrc, env, src))
                             break
                         try:
@@ -264,9 +290,9 @@ def _run_programs(res, progs, base, only_arg=None, only_env=None):
                         if not ok:
                             seg = ast.get_source_segment(code, _find(fn, key)) or "?"
                             V = vals[-1]
-                            res.violation({"kind": "unsound", "node": seg, "guard": _guard(code, fn, key), "ptype": pt, "argtype": type(arg).__name__, "rtype": type(val).__name__, "nest": _nest(val),
+                            res.violation({"kind": "unsound", "tmpl": tmpl, "node": seg, "guard": _guard(code, fn, key), "ptype": pt, "argtype": type(arg).__name__, "rtype": type(val).__name__, "nest": _nest(val),
                                            "inferred": "Never" if V is NO_RETURN_VALUE else _norm_inf(str(V))},
-                                          {"ptype": pt, "src": src, "arg": asrc, "env": env, "order": order},
+                                          {"ptype": pt, "src": src, "tmpl": tmpl, "arg": asrc, "env": env, "order": order},
                                           "`%s` evaluates to %r (%s) for run(%s) env=%s but is inferred as %s:\n%s" % (seg, val, type(val).__name__, asrc, env, V, src))
                             break
             if order % 997 == 0:
@@ -341,7 +367,7 @@ def run_unit(unit):
 
 def replay(case):
     res = UnitResult()
-    _run_programs(res, [(case["ptype"], case["src"])], case.get("order", 0), only_arg=case.get("arg"), only_env=case.get("env") or None)
+    _run_programs(res, [(case["ptype"], case["src"], case.get("tmpl", "?"))], case.get("order", 0), only_arg=case.get("arg"), only_env=case.get("env") or None)
     return list(res.viol.values())
 
 
